@@ -468,9 +468,9 @@ def nearlyFlat (s : OState) : Bool :=
       decide (n2 * 1000000000000 ≤ m * m) && !coincide && !exact
     | _, _, _ => false
 
-def judgeState (dim3 : Bool) (s : OState) : Option String :=
+def judgeState (dim3 : Bool) (s : OState) (pnExcused : Bool := false) : Option String :=
   let dropPN (fs : List String) : List String :=
-    if nearlyFlat s then fs.filter (fun f => f != "Pv" && f != "Pe") else fs
+    if nearlyFlat s || pnExcused then fs.filter (fun f => f != "Pv" && f != "Pe") else fs
   let g : Option String := match s.der with
     | none => none
     | some d => match dropPN (diffDerived s.d d) with
@@ -481,7 +481,8 @@ def judgeState (dim3 : Bool) (s : OState) : Option String :=
     | some d => match dropPN (diffDerived s.d d) with
       | [] => none
       | fs => some ("differs-from-fresh(L) fields=" ++ ",".intercalate fs)
-  match g, l, specCheck dim3 s, checkBox (if dim3 then 3 else 2) s, checkBuffers s with
+  -- the QBVH / AABB verdict first: it must not be masked by a difference in the other derived data
+  match checkBox (if dim3 then 3 else 2) s, g, l, specCheck dim3 s, checkBuffers s with
   | some e, _, _, _, _ => some e
   | _, some e, _, _, _ => some e
   | _, _, some e, _, _ => some e
@@ -508,33 +509,50 @@ def opName {V} : RawOp V → String
   | .tv _ => "tv"
   | .sc xs => "sc(" ++ ",".intercalate (xs.map fun x => if x < 0 then "-" else "+") ++ ")"
 
-def oracleHist {V} (dim : Nat) (dim3 : Bool) (m : RawMesh V) (ops : List (RawOp V)) (out : List String) : String :=
+/-- `false`: the model and the oracle follow `scaled` with `fixes/C11-scaled-pseudo-normals.diff` (cached pseudo-normals
+recomputed: everything equals a fresh build).  `true` (fallback, should the fix be declined): the model follows `scaled` **as
+written** and, in 3-D, a pseudo-normal difference with the fresh builds on a state reached through `sc` (until the next
+`append`, which rebuilds) is not an immediate failure: every other check still runs on every state, and if nothing else
+fails the history is reported with the verdict tag `scaled-pseudo-normals-not-recomputed` (for a `known:` line). -/
+def scaledAsWritten : Bool := false
+
+def oracleHist {V} (dim : Nat) (dim3 : Bool) (m : RawMesh V) (ops : List (RawOp V)) (out : List String)
+    (asw : Bool := scaledAsWritten) : String :=
   let segs := splitSegs out
   let names := s!"new({m.flags})" :: ops.map opName
   let wf := inBounds m.vs.length m.idx
-  let rec go (segs : List (List String)) (names : List String) (k : Nat) (hist : String) (judged : Nat) : String :=
+  let rec go (segs : List (List String)) (names : List String) (k : Nat) (hist : String) (judged : Nat)
+      (tainted : Bool) (deferred : Option String) : String :=
+    let done (judged : Nat) : String := match deferred with
+      | some e => e
+      | none => if judged = 0 then "skip no-state" else "pass"
     match segs, names with
-    | [], _ => if judged = 0 then "skip no-state" else "pass"
+    | [], _ => done judged
     | seg :: rest, nm :: nms =>
       let hist := if hist = "" then nm else hist ++ ">" ++ nm
+      let tainted := if nm.startsWith "app" then false else if nm.startsWith "sc(" then (asw && dim3) else tainted
       match seg with
-      | ["rhsfail"] => go rest nms (k + 1) hist judged
-      | ["emptysc"] => go rest nms (k + 1) hist judged
+      | ["rhsfail"] => go rest nms (k + 1) hist judged tainted deferred
+      | ["emptysc"] => go rest nms (k + 1) hist judged tainted deferred
       | ["empty"] => if m.idx.isEmpty then (if judged = 0 then "skip empty-indices" else "pass") else s!"fail step={k} hist={hist} unexpected-empty"
       | ["panic"] =>
         -- a panic is legitimate only for out-of-bounds input buffers or `append` producing an empty index buffer
-        if !wf then (if judged = 0 then "skip out-of-bounds-input" else "pass")
-        else if nm.startsWith "app" then (if judged = 0 then "skip append-panic" else "pass")
+        if !wf then (if judged = 0 then "skip out-of-bounds-input" else done judged)
+        else if nm.startsWith "app" then (if judged = 0 then "skip append-panic" else done judged)
         else s!"fail step={k} hist={hist} panic"
       | _ =>
         match run (pstate dim) (stripRes seg) with
         | none => s!"fail step={k} hist={hist} unparsable-output"
         | some s =>
-          match judgeState dim3 s with
+          match judgeState dim3 s tainted with
           | some e => s!"fail step={k} hist={hist} {e}"
-          | none => go rest nms (k + 1) hist (judged + 1)
+          | none =>
+            -- excused pseudo-normal difference (fallback mode only): remember the first one
+            let deferred := if tainted && deferred.isNone && (judgeState dim3 s false).isSome
+              then some s!"fail step={k} hist={hist} scaled-pseudo-normals-not-recomputed" else deferred
+            go rest nms (k + 1) hist (judged + 1) tainted deferred
     | _ :: _, [] => "fail more-segments-than-ops"
-  go segs names 0 "" 0
+  go segs names 0 "" 0 false none
 
 /-! ## `contains3`: the inside test of a closed, outward-oriented mesh against the exact crossing parity -/
 
@@ -752,20 +770,20 @@ def handler (fn : String) : Option Handler :=
   | "hist3s" => some {
       model := fun a => (run (pcase pv3) a).map fun (m, ops) => runHist (N := V3 Float) false true m ops true
       oracle := fun a o => match run (pcase pv3) a with
-        | some (m, ops) => oracleHist 3 true m ops o
+        | some (m, ops) => oracleHist 3 true m ops o true
         | none => "skip bad-args" }
   | "hist2s" => some {
       model := fun a => (run (pcase pv2) a).map fun (m, ops) => runHist (N := Unit) false false m ops true
       oracle := fun a o => match run (pcase pv2) a with
-        | some (m, ops) => oracleHist 2 false m ops o
+        | some (m, ops) => oracleHist 2 false m ops o true
         | none => "skip bad-args" }
   | "hist3" => some {
-      model := fun a => (run (pcase pv3) a).map fun (m, ops) => runHist (N := V3 Float) false true m ops
+      model := fun a => (run (pcase pv3) a).map fun (m, ops) => runHist (N := V3 Float) false true m ops scaledAsWritten
       oracle := fun a o => match run (pcase pv3) a with
         | some (m, ops) => oracleHist 3 true m ops o
         | none => "skip bad-args" }
   | "hist2" => some {
-      model := fun a => (run (pcase pv2) a).map fun (m, ops) => runHist (N := Unit) false false m ops
+      model := fun a => (run (pcase pv2) a).map fun (m, ops) => runHist (N := Unit) false false m ops scaledAsWritten
       oracle := fun a o => match run (pcase pv2) a with
         | some (m, ops) => oracleHist 2 false m ops o
         | none => "skip bad-args" }
@@ -785,8 +803,13 @@ def handler (fn : String) : Option Handler :=
         | some (m, ops, pts) =>
           if o = ["nobuild"] then "skip nobuild" else
           if o.length != pts.length then "fail unparsable-output" else
+          -- the histories keep the surface and its orientation, except `sc` (orientation-preserving scales only), which is
+          -- applied here in exact arithmetic
+          let scaleOf (p : V3 Rat) : V3 Rat := ops.foldl (fun p op => match op with
+            | .sc xs => (⟨p.x * q (xs.getD 0 1), p.y * q (xs.getD 1 1), p.z * q (xs.getD 2 1)⟩ : V3 Rat)
+            | _ => p) p
           let tris : List (V3 Rat × V3 Rat × V3 Rat) :=
-            ((allCoords m.vs m.idx).getD []).map fun c => (q3 c.1, q3 c.2.1, q3 c.2.2)
+            ((allCoords m.vs m.idx).getD []).map fun c => (scaleOf (q3 c.1), scaleOf (q3 c.2.1), scaleOf (q3 c.2.2))
           let tol : Rat := 1 / 1000000
           let res := (pts.zip o).map fun (p, bit) =>
             let P := q3 p
@@ -794,7 +817,6 @@ def handler (fn : String) : Option Handler :=
             match insideParity tris P dirsB with
             | none => 0
             | some ins => if (if ins then "1" else "0") = bit then 1 else 2
-          let _ := ops
           match res.findIdx? (· == 2) with
           | some k => s!"fail point {k} contains_local_point disagrees with the crossing parity"
           | none => if res.any (· == 1) then "pass" else "skip all-points-near-surface" }
